@@ -142,7 +142,7 @@ class C06(Prop):
         fin = os.path.join(workdir, "race.jsonl")
         fout = os.path.join(workdir, "race.out")
         open(fin, "w").write(json.dumps(case) + "\n")
-        env = dict(os.environ, VERIF_IN=fin, VERIF_OUT=fout, TMPDIR=workdir, GORACE="halt_on_error=0")
+        env = common.clean_env(VERIF_IN=fin, VERIF_OUT=fout, TMPDIR=workdir, GORACE="halt_on_error=0")
         p = subprocess.run([bins["snaps"], "-test.run", "^TestVerifTrace$", "-test.count=1"], env=env, cwd=workdir,
                            stdout=subprocess.PIPE, stderr=subprocess.STDOUT, text=True, timeout=1500)
         fails = []
